@@ -128,6 +128,8 @@ pub fn generate_all_circuit_binaries<P: AsRef<Path>>(
         // Generate regular circuit binaries
         generate_circuit_binaries(&staging_path)?;
 
+        #[cfg(feature = "verif-hooks")]
+        crate::verif_hooks::stage("after_leaf")?;
         // Generate aggregated circuit binaries
         generate_private_batch_circuit_binaries(
             &staging_path,
@@ -135,6 +137,8 @@ pub fn generate_all_circuit_binaries<P: AsRef<Path>>(
             include_prover,
         )?;
 
+        #[cfg(feature = "verif-hooks")]
+        crate::verif_hooks::stage("after_private_batch")?;
         // If num_private_batch_proofs is specified, generate public-batch aggregation circuit binaries
         if let Some(num_private_batch_proofs) = config.num_private_batch_proofs {
             generate_public_batch_circuit_binaries(
@@ -144,6 +148,8 @@ pub fn generate_all_circuit_binaries<P: AsRef<Path>>(
             )?;
         }
 
+        #[cfg(feature = "verif-hooks")]
+        crate::verif_hooks::stage("before_config")?;
         // Save config file alongside binaries. Written last: its presence marks
         // the staged set as complete.
         config.save(&staging_path)
@@ -224,6 +230,8 @@ fn commit_staging_dir_impl(
     output_dir: &Path,
     rename: impl Fn(&Path, &Path) -> std::io::Result<()>,
 ) -> Result<()> {
+    #[cfg(feature = "verif-hooks")]
+    use crate::verif_hooks::fs;
     if !staging_dir.is_dir() {
         bail!(
             "staged artifact path {} is not a directory; refusing to publish",
@@ -308,6 +316,19 @@ fn commit_staging_dir_impl(
     }
     Ok(())
 }
+
+/// Verification hook: public entry to the injectable publish routine.
+#[cfg(feature = "verif-hooks")]
+pub fn verif_commit_staging_dir(
+    staging_dir: &Path,
+    output_dir: &Path,
+    rename: impl Fn(&Path, &Path) -> std::io::Result<()>,
+) -> Result<()> {
+    commit_staging_dir_impl(staging_dir, output_dir, rename)
+}
+
+#[cfg(feature = "verif-hooks")]
+pub mod verif_hooks;
 
 #[cfg(test)]
 mod tests {
